@@ -68,6 +68,9 @@ structure PyGraph where
   next_node_id : Int := 0
   next_attacker_id : Int := 0
 
+/-- the state threaded through the `__deepcopy__` methods: heap, allocation, memo -/
+abbrev DCSt := H × Aux × Memo
+
 /-- the heap whose graph object is `g` (stores of `s`) -/
 def H.withGraph (s : H) (g : PyGraph) : H :=
   { s with nodes := g.nodes, attackers := g.attackers, _id_to_node := g._id_to_node,
